@@ -1,5 +1,6 @@
 import Driver.Util
 import Lattigo.Model.PolyEval
+import Lattigo.Model.ParamsGen
 
 /-
   C13 line protocol.
@@ -96,11 +97,19 @@ def handle (toks : List String) : String :=
   match toks with
   | ["split", n] =>
     match parseNat? n with
-    | some n => let (a, b) := splitDegree n; s!"{a} {b}"
+    | some n =>
+      -- executes the definition REGENERATED from power_basis.go (Gen/PolySplit.lean via Model/ParamsGen.lean)
+      match Lattigo.Model.ParamsGen.splitDegree (n : Int) with
+      | some (a, b) => s!"{a} {b}"
+      | none => "panic"
     | none => badOp
   | ["optsplit", n] =>
     match parseNat? n with
-    | some n => if n = 0 then "panic" else toString (optimalSplit n)   -- 1 << -1
+    | some n =>
+      -- regenerated from utils/bignum/polynomial.go; logDegree = 0 is `1 << -1` in Go (panic)
+      match Lattigo.Model.ParamsGen.optimalSplit (n : Int) with
+      | some s => toString s
+      | none => "panic"
     | none => badOp
   | ["depth", n] =>
     match parseNat? n with
